@@ -479,11 +479,23 @@ theorem C39_counterexample_like_underscore :
 theorem C39_counterexample_like_newline :
     likeSpec [37] [97, 10, 98] = some true ∧ likeImpl [37] [97, 10, 98] = some false := by decide
 
-/-- after an escaped backslash a wildcard must still be a wildcard: the implementation looks at the
-single preceding character and takes it literally -/
-theorem C39_counterexample_like_escaped_backslash :
-    likeSpec [92, 92, 37] [92, 97, 98] = some true ∧ likeImpl [92, 92, 37] [92, 97, 98] = some false ∧
-    likeSpec [92, 92, 37] [92, 37] = some true ∧ likeImpl [92, 92, 37] [92, 37] = some true := by decide
+/-- before `fix: LIKE escape handling …`: after an escaped backslash a wildcard was taken literally
+(`\\%` did not match `\ab`), and an escaped regex meta character became "backslash, any character"
+(`a\.b` did not match `a.b` but matched `a\xb`) -/
+theorem C39_counterexample_like_escapes :
+    likeSpec [92, 92, 37] [92, 97, 98] = some true ∧ likeImplOld [92, 92, 37] [92, 97, 98] = some false ∧
+    likeSpec [97, 92, 46, 98] [97, 46, 98] = some true ∧ likeImplOld [97, 92, 46, 98] [97, 46, 98] = some false ∧
+    likeSpec [97, 92, 46, 98] [97, 92, 99, 98] = some false ∧
+    likeImplOld [97, 92, 46, 98] [97, 92, 99, 98] = some true ∧
+    -- an escaped letter reached the regex as the escape sequence `\a` (the bell character)
+    likeSpec [99, 92, 97] [99, 97] = some true ∧ likeToRegexOld [99, 92, 97] = [94, 99, 92, 97, 36] := by
+  decide
+
+theorem C39_fixed_like_escapes :
+    likeImpl [92, 92, 37] [92, 97, 98] = some true ∧ likeImpl [92, 92, 37] [92, 37] = some true ∧
+    likeImpl [97, 92, 46, 98] [97, 46, 98] = some true ∧
+    likeImpl [97, 92, 46, 98] [97, 92, 99, 98] = some false ∧
+    likeImpl [99, 92, 97] [99, 97] = some true := by decide
 
 /-! ### Agreement on the patterns made of ordinary characters and `%` -/
 
@@ -504,37 +516,47 @@ theorem plain_facts (c : Nat) (h : plain c = true) :
   simp [plain, isRegexMeta] at h
   omega
 
-theorem likeToRegexGo_plain (p : List Nat) (hp : PlainPct p) (prev : Option Nat) (hprev : prev ≠ some 92)
-    (out : List Nat) :
-    likeToRegexGo p false prev out = (p.flatMap trC).reverse ++ out := by
-  induction p generalizing prev out with
+theorem likeToRegexGo_plain (p : List Nat) (hp : PlainPct p) (out : List Nat) :
+    likeToRegexGo p false false out = (p.flatMap trC).reverse ++ out := by
+  induction p generalizing out with
   | nil => simp [likeToRegexGo]
   | cons c rest ih =>
     have hrest : PlainPct rest := fun d hd => hp d (List.mem_cons_of_mem _ hd)
-    have hesc : (prev == some 92) = false := by
-      cases prev with
-      | none => rfl
-      | some x => simp at hprev ⊢; exact hprev
     rcases hp c (List.mem_cons_self ..) with h | h
     · obtain ⟨h1, h2, h3, h4, h5, h6, h7, h8, h9, h10, h11, h12, h13, -⟩ := plain_facts c h
       have hm : isRegexMeta c = false := by simp [isRegexMeta, *]
+      have hn : (!false && c == 92) = false := by simp [h13]
       unfold likeToRegexGo
-      simp only [hesc, hm, h8, h9, h11, h12, Bool.false_eq_true, if_false, or_self]
-      rw [ih hrest (some c) (by simp; exact h13)]
+      simp only [hn, hm, h8, h9, h11, h12, Bool.false_eq_true, if_false, or_self]
+      rw [ih hrest]
       simp [trC, h11]
     · subst h
-      unfold likeToRegexGo
-      simp only [hesc, Bool.false_eq_true, if_false]
       have hm : isRegexMeta 37 = false := by decide
-      simp only [hm, Bool.false_eq_true, false_or]
-      simp only [if_true]
-      have := ih hrest (some 37) (by decide) (42 :: 46 :: out)
+      have hn : (!false && (37 : Nat) == 92) = false := by decide
+      unfold likeToRegexGo
+      simp only [hn, hm, Bool.false_eq_true, if_false, false_or]
+      simp only [show ((37 : Nat) = 94) = False by decide, show ((37 : Nat) = 91) = False by decide,
+        if_false, if_true]
+      have := ih hrest (42 :: 46 :: out)
       simp [trC, this]
+
+theorem endsEscaped_plain (p : List Nat) (hp : PlainPct p) : endsEscaped p false = false := by
+  induction p with
+  | nil => rfl
+  | cons c rest ih =>
+    have hrest : PlainPct rest := fun d hd => hp d (List.mem_cons_of_mem _ hd)
+    have hc : c ≠ 92 := by
+      rcases hp c (List.mem_cons_self ..) with h | h
+      · exact (plain_facts c h).2.2.2.2.2.2.2.2.2.2.2.2.1
+      · subst h; decide
+    have hb : (c == 92) = false := by simp [hc]
+    simp [endsEscaped, hb, ih hrest]
 
 theorem likeToRegex_plain (p : List Nat) (hp : PlainPct p) :
     likeToRegex p = 94 :: (p.flatMap trC ++ [36]) := by
   unfold likeToRegex
-  rw [likeToRegexGo_plain p hp none (by simp)]
+  simp only [endsEscaped_plain p hp, Bool.false_eq_true, if_false]
+  rw [likeToRegexGo_plain p hp]
   simp
 
 theorem parseSeq_plain (p : List Nat) (hp : PlainPct p) (fuel : Nat) (acc : List Item)
